@@ -74,7 +74,9 @@ func (s *server) applyErrCfg(name string) {
 				return &gqlerror.Error{Message: "presented: " + e.Message, Path: graphql.GetPath(ctx)}
 			})
 		default:
-			panic("unknown error configuration " + name)
+			if !s.applyMwCfg(part) { // mutate.go: middleware that writes into what gqlgen hands it
+				panic("unknown error configuration " + name)
+			}
 		}
 	}
 }
